@@ -219,7 +219,11 @@ func (e *keEnv) deliverHdr(i, j int, h uint32) {
 	if raw != nil {
 		binary.BigEndian.PutUint32(raw[:4], h)
 	}
-	e.deliver(i, sx.L(sx.S("hdr"), sx.I(j), sx.N(uint64(h))), raw)
+	long := 0 // can the body hold an ephemeral key? (a fresh responder's Noise state then consumes it)
+	if raw != nil && len(raw)-4 >= 32 {
+		long = 1
+	}
+	e.deliver(i, sx.L(sx.S("hdr"), sx.I(j), sx.N(uint64(h)), sx.I(long)), raw)
 }
 func (e *keEnv) deliverBody(i, j int) {
 	raw := cloneOrNil(e.get(j))
